@@ -111,7 +111,7 @@ def build(kind):
         # pure-Rust flavour of vmon (no liblinear, no zstd), std rebuilt with the sanitizer
         td = os.path.join(BUILD, "tsan")
         r = run(
-            ["cargo", "+nightly", "build", "--release", "-p", "vmon", "--no-default-features", "-Zbuild-std",
+            ["cargo", "+nightly", "build", "--release", "-p", "vmon", "--no-default-features", "--features", "tag-prediction", "-Zbuild-std",
              "--target", "x86_64-unknown-linux-gnu"],
             cwd=HARNESS,
             env={"CARGO_TARGET_DIR": td, "RUSTFLAGS": "-Zsanitizer=thread"},
@@ -243,34 +243,88 @@ def _classify_abort(rc, tail):
     return "exit:%s" % rc
 
 
-def _run_chunk(binary, workload, seed, lo, hi, tier, extra, rundir, tag, timeout, env, hang_limit=HANG_LIMIT_S):
-    """Runs cases lo..hi; on abort/timeout isolates the case and continues after it."""
+def _limits(env):
+    """Address-space cap for plain workers so that a runaway allocation (a writer looping on a
+    broken iterator) ends in an allocation failure instead of exhausting the machine. Sanitizer and
+    Miri processes reserve huge virtual ranges and are exempt."""
+    if "ASAN_OPTIONS" in env or "TSAN_OPTIONS" in env or "MIRIFLAGS" in env:
+        return None
+
+    def f():
+        import resource
+        lim = 12 * 1024 ** 3
+        resource.setrlimit(resource.RLIMIT_AS, (lim, lim))
+    return f
+
+
+_abort_counts = {}
+_abort_lock = None
+
+
+def _note_abort(sig):
+    global _abort_lock
+    import threading
+    if _abort_lock is None:
+        _abort_lock = threading.Lock()
+    with _abort_lock:
+        _abort_counts[sig] = _abort_counts.get(sig, 0) + 1
+        return _abort_counts[sig]
+
+
+def _wait_with_stall_watch(p, journal, stall_limit, hard_timeout):
+    """Waits for the worker. Returns (rc, reason) with reason in {None, 'stall', 'timeout'}.
+    A stall = the case journal did not change for `stall_limit` seconds (one case is stuck);
+    the hard timeout is a generous bound on the whole chunk."""
+    t0 = time.time()
+    last_change = t0
+    last = None
+    while True:
+        try:
+            return p.wait(timeout=1.0), None
+        except subprocess.TimeoutExpired:
+            pass
+        now = time.time()
+        try:
+            with open(journal) as f:
+                cur = f.read()
+        except Exception:
+            cur = None
+        if cur != last:
+            last = cur
+            last_change = now
+        reason = None
+        if now - last_change > stall_limit:
+            reason = "stall"
+        elif now - t0 > hard_timeout:
+            reason = "timeout"
+        if reason:
+            p.kill()
+            p.wait()
+            return None, reason
+
+
+def _run_chunk(binary, workload, seed, lo, hi, tier, extra, rundir, tag, timeout, env, hang_limit=HANG_LIMIT_S, stall_limit=120):
+    """Runs cases lo..hi; on abort/stall isolates the case and continues after it."""
     out = {"events": [], "aborts": [], "incidents": []}
     cur = lo
     attempt = 0
-    while cur < hi and attempt < 12:
+    prefix = binary if isinstance(binary, list) else [binary]
+    while cur < hi and attempt < 8:
         attempt += 1
         ev = os.path.join(rundir, "%s-%d-%d.jsonl" % (tag, cur, attempt))
         jr = os.path.join(rundir, "%s-%d-%d.journal" % (tag, cur, attempt))
         er = os.path.join(rundir, "%s-%d-%d.stderr" % (tag, cur, attempt))
-        cmd = (binary if isinstance(binary, list) else [binary]) + [workload, "--seed", str(seed), "--from", str(cur), "--to", str(hi),
-               "--events", ev, "--journal", jr, "--tier", tier] + extra
+        cmd = prefix + [workload, "--seed", str(seed), "--from", str(cur), "--to", str(hi),
+                        "--events", ev, "--journal", jr, "--tier", tier] + extra
         e = dict(ENV_BASE)
         e.update(env or {})
-        timed_out = False
         with open(er, "w") as errf:
-            p = subprocess.Popen(cmd, stdout=errf, stderr=errf, env=e, cwd=rundir)
-            try:
-                rc = p.wait(timeout=timeout)
-            except subprocess.TimeoutExpired:
-                p.kill()
-                p.wait()
-                rc = None
-                timed_out = True
+            p = subprocess.Popen(cmd, stdout=errf, stderr=errf, env=e, cwd=rundir, preexec_fn=_limits(e))
+            rc, reason = _wait_with_stall_watch(p, jr, stall_limit, timeout)
         out["events"].append(ev)
         if rc == 0:
             return out
-        # worker died: which case?
+        # worker died or was killed: which case?
         try:
             with open(jr) as f:
                 k = int(f.read().strip() or cur)
@@ -279,39 +333,41 @@ def _run_chunk(binary, workload, seed, lo, hi, tier, extra, rundir, tag, timeout
         tail = _stderr_tail(er)
         # isolate
         ev1 = os.path.join(rundir, "%s-iso-%d.jsonl" % (tag, k))
+        jr1 = os.path.join(rundir, "%s-iso-%d.journal" % (tag, k))
         er1 = os.path.join(rundir, "%s-iso-%d.stderr" % (tag, k))
-        cmd1 = (binary if isinstance(binary, list) else [binary]) + [workload, "--seed", str(seed), "--from", str(k), "--to", str(k + 1),
-                "--events", ev1, "--tier", tier] + extra
-        iso_timeout = False
+        cmd1 = prefix + [workload, "--seed", str(seed), "--from", str(k), "--to", str(k + 1),
+                         "--events", ev1, "--journal", jr1, "--tier", tier] + extra
         with open(er1, "w") as errf:
-            p = subprocess.Popen(cmd1, stdout=errf, stderr=errf, env=e, cwd=rundir)
-            try:
-                rc1 = p.wait(timeout=hang_limit)
-            except subprocess.TimeoutExpired:
-                p.kill()
-                p.wait()
-                rc1 = None
-                iso_timeout = True
+            p = subprocess.Popen(cmd1, stdout=errf, stderr=errf, env=e, cwd=rundir, preexec_fn=_limits(e))
+            rc1, reason1 = _wait_with_stall_watch(p, jr1, hang_limit, hang_limit)
         tail1 = _stderr_tail(er1)
-        if iso_timeout:
-            out["aborts"].append({"case": k, "sig": "hang:no_result_in_isolation_within_generous_limit",
-                                  "stderr": tail1, "rc": None})
+        sig = None
+        if reason1:
+            sig = "hang:no_result_in_isolation_within_generous_limit"
+            out["aborts"].append({"case": k, "sig": sig, "stderr": tail1, "rc": None})
         elif rc1 != 0:
-            out["aborts"].append({"case": k, "sig": "abort:" + _classify_abort(rc1, tail1), "stderr": tail1, "rc": rc1})
+            sig = "abort:" + _classify_abort(rc1, tail1)
+            out["aborts"].append({"case": k, "sig": sig, "stderr": tail1, "rc": rc1})
         else:
             # not reproduced in isolation: harness-level incident, not a violation
             out["events"].append(ev1)
-            out["incidents"].append({"case": k, "what": "worker died (%s) but the case passes in isolation" %
-                                     ("timeout" if timed_out else _classify_abort(rc, tail)), "stderr": tail})
+            out["incidents"].append({"case": k, "what": "worker %s but the case passes in isolation" %
+                                     (("was killed after a " + reason) if reason else ("died (%s)" % _classify_abort(rc, tail))),
+                                     "stderr": tail})
         cur = k + 1
+        if sig and _note_abort("%s:%s" % (workload, sig)) > 3:
+            # the same failure was already confirmed several times: the verdict is decided,
+            # do not spend the isolation budget on every remaining chunk
+            out["skipped_after_repeated_abort"] = hi - cur
+            return out
     if cur < hi:
         out["incidents"].append({"case": cur, "what": "too many worker deaths in one chunk; rest skipped"})
     return out
 
 
 def run_workload(res, build_name, workload, n_cases, tier, seed, extra=None, chunks=None,
-                 per_case_timeout=2.0, env=None, binary=None, first_case=0, tag=None, hang_limit=HANG_LIMIT_S,
-                 env_per_chunk=None):
+                 per_case_timeout=0.05, env=None, binary=None, first_case=0, tag=None, hang_limit=HANG_LIMIT_S,
+                 env_per_chunk=None, stall_limit=120):
     """Runs `n_cases` cases of `workload` sharded over the cores and aggregates into `res`."""
     extra = list(extra or [])
     binary = binary or build(build_name)
@@ -320,7 +376,7 @@ def run_workload(res, build_name, workload, n_cases, tier, seed, extra=None, chu
     shutil.rmtree(rundir, ignore_errors=True)
     os.makedirs(rundir, exist_ok=True)
     if chunks is None:
-        chunks = min(max(1, n_cases), NCPU * 4)
+        chunks = min(max(1, n_cases), max(NCPU * 4, n_cases // 5000))
     size = (n_cases + chunks - 1) // chunks
     ranges = []
     lo = first_case
@@ -333,12 +389,12 @@ def run_workload(res, build_name, workload, n_cases, tier, seed, extra=None, chu
     with cf.ThreadPoolExecutor(max_workers=NCPU) as ex:
         futs = []
         for i, (a, b) in enumerate(ranges):
-            timeout = 120 + per_case_timeout * (b - a) * 10
+            timeout = 600 + per_case_timeout * (b - a) * 20
             e_i = dict(env or {})
             if env_per_chunk:
                 e_i.update(env_per_chunk(i))
             futs.append(ex.submit(_run_chunk, binary, workload, seed, a, b, tier, extra, rundir,
-                                  "c%03d" % i, timeout, e_i, hang_limit))
+                                  "c%03d" % i, timeout, e_i, hang_limit, stall_limit))
         for f in futs:
             outs.append(f.result())
     n_done = 0
@@ -352,6 +408,8 @@ def run_workload(res, build_name, workload, n_cases, tier, seed, extra=None, chu
                 "detail": {"stderr_tail": a["stderr"], "exit": a["rc"]},
                 "workload": workload, "build": build_name, "extra_args": extra,
             })
+        if o.get("skipped_after_repeated_abort"):
+            res.add_counter("cases_skipped_after_repeated_identical_abort", o["skipped_after_repeated_abort"])
         for inc in o["incidents"]:
             inc = dict(inc)
             inc["workload"] = workload
@@ -472,7 +530,7 @@ def fail_inconclusive(prop, tier, seed, level, reason, t0):
 
 
 MIRI_CMD = ["cargo", "+nightly", "miri", "run", "-q", "--manifest-path", os.path.join(HARNESS, "Cargo.toml"),
-            "-p", "vmon", "--no-default-features", "--"]
+            "-p", "vmon", "--no-default-features", "--features", "tag-prediction", "--"]
 
 
 def miri_env(extra_flags=""):
@@ -504,4 +562,4 @@ def run_miri(res, workload, n_cases, tier, seed, extra=None, procs=None, per_cas
         per_chunk = lambda i: miri_env("%s -Zmiri-seed=%d" % (flags, seed * 1000 + i))
     run_workload(res, "miri", workload, n_cases, tier, seed, extra=extra, chunks=procs or min(n_cases, NCPU),
                  per_case_timeout=per_case_timeout, env=miri_env(flags), binary=MIRI_CMD, tag=tag or ("%s-miri" % workload),
-                 hang_limit=3600, env_per_chunk=per_chunk)
+                 hang_limit=3600, env_per_chunk=per_chunk, stall_limit=3600)
